@@ -411,3 +411,211 @@ Proof.
   - rewrite (IH1 c G). apply IH2. apply (Good_perm c l); assumption.
 Qed.
 End Order.
+
+Local Open Scope R_scope.
+
+(* [G] two calls operations.insert_knot(curve, [x], [1]) and (curve, [y], [1]) at different knots commute (the code's own span and
+   multiplicity searches at every stage); if both are accepted on the curve, the second calls are accepted as well *)
+Theorem insert_knot_curve_commute (tol : R) (c : curve (T:=R)) (dim : nat) (x y : R) :
+  0 <= tol -> cwf c dim ->
+  par_ok tol (c_p c) (c_U c) (length (c_P c)) (Some x) -> par_ok tol (c_p c) (c_U c) (length (c_P c)) (Some y) ->
+  tol < Rabs (y - x) ->
+  snd (insert_knot_curve Rops tol true c [Some x] [1%Z]) = false -> snd (insert_knot_curve Rops tol true c [Some y] [1%Z]) = false ->
+  let ins := fun (c : curve (T:=R)) (z : R) => insert_knot_curve Rops tol true c [Some z] [1%Z] in
+  ins (fst (ins c x)) y = ins (fst (ins c y)) x /\ snd (ins (fst (ins c x)) y) = false.
+Proof.
+  intros Ht F Px Py Hfar Ax Ay. cbv beta zeta.
+  assert (S1 : forall c0 z, insert_knot_curve Rops tol true c0 [Some z] [1%Z] = cstep tol c0 (Some z) 1%nat)
+    by (intros c0 z; apply (insert_knot_curve_steps tol c0 (Some z) 1)).
+  rewrite S1 in Ax. rewrite S1 in Ay. rewrite !S1.
+  destruct (Rlt_le_dec x y) as [Hlt|Hge].
+  - rewrite Rabs_right in Hfar by lra.
+    destruct (ins1_commute_lt tol c dim x y) as (A1 & A2 & E); try assumption; try lra.
+    split; [|exact A1].
+    destruct (cstep tol (fst (cstep tol c (Some x) 1)) (Some y) 1) as [r1 b1].
+    destruct (cstep tol (fst (cstep tol c (Some y) 1)) (Some x) 1) as [r2 b2]. cbn [fst snd] in *. subst. reflexivity.
+  - assert (Hne : x <> y) by (intro E; subst; replace (y - y) with 0 in Hfar by ring; rewrite Rabs_R0 in Hfar; lra).
+    assert (Hlt : y < x) by lra. rewrite Rabs_left in Hfar by lra.
+    destruct (ins1_commute_lt tol c dim y x) as (A1 & A2 & E); try assumption; try lra.
+    split; [|exact A2].
+    destruct (cstep tol (fst (cstep tol c (Some x) 1)) (Some y) 1) as [r1 b1].
+    destruct (cstep tol (fst (cstep tol c (Some y) 1)) (Some x) 1) as [r2 b2]. cbn [fst snd] in *. subst. reflexivity.
+Qed.
+
+(* [G] THE THEOREM, ANY ORDER.  Hypotheses of KnotRemMoreRefine.remove_after_refine_sched, but the schedule only has to be a
+   REARRANGEMENT of X: Permutation (expand sched) X.  So the refined knots may be removed in any order whatsoever, one at a time
+   or several copies of a knot per call; the calls never raise, the original curve record comes back, and every intermediate
+   curve has the points of the original curve. *)
+Theorem remove_after_refine_any_order (tol tolm tol2 : R) (p : nat) (U : list R) (P : list (list R)) (X : list R) (dim : nat)
+    (sched : list (R * nat)) :
+  (1 <= p)%nat -> sortedR U -> (p < length P)%nat -> length U = (length P + p + 1)%nat ->
+  X <> [] -> sortedR X -> knR U p <= nth 0 X 0 -> nth (length X - 1) X 0 < knR U (length P) ->
+  (forall x y, In x X -> In y (X ++ U) -> x < y -> tol <= y - x) ->
+  (forall x, In x X -> (count_occ Req_EM_T (X ++ U) x <= p)%nat) ->
+  (forall i, (i < length P)%nat -> length (getp P i) = dim) ->
+  0 <= tolm -> (forall x y, In x X -> In y (X ++ U) -> Rabs (x - y) <= tolm -> y = x) -> 0 <= tol2 ->
+  Permutation (expand sched) X ->
+  let rm := fun (c : curve (T:=R)) (e : R * nat) => remove_knot_curve Rops tolm tol2 true c [Some (fst e)] [Z.of_nat (snd e)] in
+  let '(Q, V) := refine_pts Rops tol p U P X in
+  fold_left (fun c e => fst (rm c e)) sched (mkC p V Q) = mkC p U P /\
+  (forall s1 e s2, sched = s1 ++ e :: s2 -> snd (rm (fold_left (fun c e => fst (rm c e)) s1 (mkC p V Q)) e) = false) /\
+  (forall s1 s2, sched = s1 ++ s2 -> forall cc t, (cc < dim)%nat ->
+     let c := fold_left (fun c e => fst (rm c e)) s1 (mkC p V Q) in
+     c_p c = p /\ curve_pt p (c_U c) (c_P c) cc t = curve_pt p U P cc t).
+Proof.
+  intros H1 H2 H3 H4 H5 H6 H7 H8 H9 H10 H11 Htm Hsepm Ht2 PX. cbv zeta.
+  destruct (refine_is_insert_chain_sec tol tolm p U P X dim H1 H2 H3 H4 H5 H6 H7 H8 (conj H9 (conj H10 H11)) Htm Hsepm) as [_ E].
+  rewrite E. set (c0 := mkC p U P) in *.
+  assert (G0 : Good tolm dim c0 X).
+  { split; [split; [split; [exact H2|split; [exact H3|exact H4]]|exact H11]|]. cbn [c0 c_p c_U c_P]. split; [|split; assumption].
+    intros x Hx. destruct (X_bounds p U P X H1 H3 H4 H6 x Hx). lra. }
+  assert (PR : Permutation (rev X) (rev (expand sched))).
+  { eapply Permutation_trans; [apply Permutation_sym, Permutation_rev|].
+    eapply Permutation_trans; [apply Permutation_sym; exact PX|apply Permutation_rev]. }
+  assert (GR : Good tolm dim c0 (rev X)) by (apply (Good_perm tolm dim c0 X); [apply Permutation_rev|exact G0]).
+  rewrite (perm_fold tolm dim Htm (rev X) (rev (expand sched)) PR c0 GR).
+  pose proof (good_chain tolm dim Htm _ c0 (Good_perm tolm dim c0 _ _ PR GR)) as C.
+  rewrite singles_rev_expand in *.
+  destruct (group_chain tolm dim Htm (rev sched) c0 C) as [C' E']. rewrite <- E'.
+  set (cF := fold_left (insS tolm) (rev sched) c0).
+  assert (EcF : mkC p (c_U cF) (c_P cF) = cF).
+  { pose proof (fold_insS_p tolm (rev sched) c0) as Hp. fold cF in Hp. cbn [c0 c_p] in Hp. destruct cF as [p' U' P']. cbn [c_p c_U c_P] in *. subst p'. reflexivity. }
+  rewrite EcF.
+  assert (Efun : forall l c, fold_left (fun c e => fst (remove_knot_curve Rops tolm tol2 true c [Some (fst e)] [Z.of_nat (snd e)])) l c
+                           = fold_left (remS tolm tol2) l c).
+  { intros l c. apply fold_left_ext. intros c1 e. rewrite remove_knot_curve_steps. reflexivity. }
+  split; [|split].
+  - rewrite Efun. apply (rem_chain tolm tol2 dim Htm Ht2). exact C'.
+  - intros s1 e s2 ES. rewrite Efun, remove_knot_curve_steps. unfold cF. rewrite ES in *.
+    apply (rem_chain_flag tolm tol2 dim Htm Ht2 s1 e s2 c0 C').
+  - intros s1 s2 ES cc t Hcc. cbv zeta. rewrite Efun. unfold cF. rewrite ES in *.
+    rewrite (rem_chain_prefix tolm tol2 dim Htm Ht2 s1 s2 c0 C').
+    rewrite rev_app_distr in C'. apply chain_app in C'. destruct C' as [C1 _].
+    split; [apply (fold_insS_p tolm (rev s2) c0)|].
+    pose proof (chain_pts tolm dim (rev s2) c0 cc t C1 Hcc) as Hp. unfold cpts in Hp.
+    rewrite (fold_insS_p tolm (rev s2) c0) in Hp. exact Hp.
+Qed.
+
+(* [G] one knot at a time, in the order of ANY rearrangement `order` of X *)
+Corollary remove_after_refine_any_order_one_by_one (tol tolm tol2 : R) (p : nat) (U : list R) (P : list (list R)) (X order : list R) (dim : nat) :
+  (1 <= p)%nat -> sortedR U -> (p < length P)%nat -> length U = (length P + p + 1)%nat ->
+  X <> [] -> sortedR X -> knR U p <= nth 0 X 0 -> nth (length X - 1) X 0 < knR U (length P) ->
+  (forall x y, In x X -> In y (X ++ U) -> x < y -> tol <= y - x) ->
+  (forall x, In x X -> (count_occ Req_EM_T (X ++ U) x <= p)%nat) ->
+  (forall i, (i < length P)%nat -> length (getp P i) = dim) ->
+  0 <= tolm -> (forall x y, In x X -> In y (X ++ U) -> Rabs (x - y) <= tolm -> y = x) -> 0 <= tol2 ->
+  Permutation order X ->
+  let '(Q, V) := refine_pts Rops tol p U P X in
+  fold_left (fun c x => fst (remove_knot_curve Rops tolm tol2 true c [Some x] [1%Z])) order (mkC p V Q) = mkC p U P.
+Proof.
+  intros H1 H2 H3 H4 H5 H6 H7 H8 H9 H10 H11 Htm Hsepm Ht2 PX.
+  pose proof (remove_after_refine_any_order tol tolm tol2 p U P X dim (singles order) H1 H2 H3 H4 H5 H6 H7 H8 H9 H10 H11 Htm Hsepm Ht2) as H.
+  rewrite expand_singles in H. specialize (H PX). cbv zeta in H.
+  destruct (refine_pts Rops tol p U P X) as [Q V]. destruct H as [H _].
+  unfold singles in H. rewrite fold_left_map_ in H. exact H.
+Qed.
+
+(* [G] the insertion side: the curve obtained by inserting the knots of X one at a time with operations.insert_knot does not depend
+   on the order, and it is what A5.4 returns *)
+Theorem refine_is_insert_chain_any_order (tol tolm : R) (p : nat) (U : list R) (P : list (list R)) (X order : list R) (dim : nat) :
+  (1 <= p)%nat -> sortedR U -> (p < length P)%nat -> length U = (length P + p + 1)%nat ->
+  X <> [] -> sortedR X -> knR U p <= nth 0 X 0 -> nth (length X - 1) X 0 < knR U (length P) ->
+  (forall x y, In x X -> In y (X ++ U) -> x < y -> tol <= y - x) ->
+  (forall x, In x X -> (count_occ Req_EM_T (X ++ U) x <= p)%nat) ->
+  (forall i, (i < length P)%nat -> length (getp P i) = dim) ->
+  0 <= tolm -> (forall x y, In x X -> In y (X ++ U) -> Rabs (x - y) <= tolm -> y = x) ->
+  Permutation order X ->
+  let ins := fun (c : curve (T:=R)) (x : R) => insert_knot_curve Rops tolm true c [Some x] [1%Z] in
+  let cF := fold_left (fun c x => fst (ins c x)) order (mkC p U P) in
+  refine_pts Rops tol p U P X = (c_P cF, c_U cF) /\ c_p cF = p /\
+  (forall l1 x l2, order = l1 ++ x :: l2 -> snd (ins (fold_left (fun c x => fst (ins c x)) l1 (mkC p U P)) x) = false).
+Proof.
+  intros H1 H2 H3 H4 H5 H6 H7 H8 H9 H10 H11 Htm Hsepm PX. cbv zeta.
+  destruct (refine_is_insert_chain_sec tol tolm p U P X dim H1 H2 H3 H4 H5 H6 H7 H8 (conj H9 (conj H10 H11)) Htm Hsepm) as [_ E].
+  set (c0 := mkC p U P) in *.
+  assert (G0 : Good tolm dim c0 X).
+  { split; [split; [split; [exact H2|split; [exact H3|exact H4]]|exact H11]|]. cbn [c0 c_p c_U c_P]. split; [|split; assumption].
+    intros x Hx. destruct (X_bounds p U P X H1 H3 H4 H6 x Hx). lra. }
+  assert (PR : Permutation (rev X) order).
+  { eapply Permutation_trans; [apply Permutation_sym, Permutation_rev|apply Permutation_sym; exact PX]. }
+  assert (GR : Good tolm dim c0 (rev X)) by (apply (Good_perm tolm dim c0 X); [apply Permutation_rev|exact G0]).
+  rewrite (perm_fold tolm dim Htm (rev X) order PR c0 GR) in E.
+  pose proof (good_chain tolm dim Htm _ c0 (Good_perm tolm dim c0 _ _ PR GR)) as C.
+  assert (Efun : forall l c, fold_left (fun c x => fst (insert_knot_curve Rops tolm true c [Some x] [1%Z])) l c
+                           = fold_left (insS tolm) (singles l) c).
+  { intros l c. unfold singles. rewrite fold_left_map_. apply fold_left_ext. intros c1 x.
+    change 1%Z with (Z.of_nat 1). rewrite insert_knot_curve_steps. reflexivity. }
+  rewrite !Efun. split; [exact E|]. split; [apply fold_insS_p|].
+  intros l1 x l2 EL. rewrite Efun. change 1%Z with (Z.of_nat 1). rewrite insert_knot_curve_steps.
+  rewrite EL in C. unfold singles in C. rewrite map_app in C. apply chain_app in C. destruct C as [_ C].
+  cbn [map chain] in C. destruct C as [G _]. apply (G (le_n 1%nat)).
+Qed.
+
+(* [G] helpers.knot_refinement (any knot_list / add_knot_list / density), then operations.remove_knot of every listed value mk with
+   its count p - mult_U(mk) (0 = nothing to do), the listed values taken in ANY order: the original curve record comes back *)
+Corollary remove_after_knot_refinement_any_order (tol tol2 : R) check (p : nat) (U : list R) (P : list (list R)) klo add d (dim : nat) Q V order :
+  let kl := (match klo with Some l => l | None => slice U p (length U - p) end) ++ add in
+  RefineOp.plan_ok tol p U (length P) d kl -> (forall i, (i < length P)%nat -> length (getp P i) = dim) -> 0 <= tol2 ->
+  knot_refinement Rops tol check p U P klo add d = Ok (Q, V) ->
+  Permutation order (RefineDefault.refine_Lk d kl) ->
+  fold_left (fun c mk => fst (remove_knot_curve Rops tol tol2 true c [Some mk] [Z.of_nat (p - find_multiplicity Rops tol mk U)]))
+            order (mkC p V Q) = mkC p U P /\
+  forall cc t, (cc < dim)%nat -> curve_pt p V Q cc t = curve_pt p U P cc t.
+Proof.
+  cbv zeta. set (kl := _ ++ add). intros Hok Hdim Ht2 Hk PO.
+  unfold knot_refinement, knot_refinement_g in Hk.
+  destruct (refine_plan Rops tol check p U klo add d) as [X| |] eqn:Hplan; cbn [res_map] in Hk; try discriminate.
+  destruct (RefineOp.plan_refine_ok tol check p U (length P) klo add d X Hok Hplan) as [EX HX]. fold kl in EX.
+  change (refine_g Rops (lerp Rops) [] tol p U P X) with (refine_pts Rops tol p U P X) in Hk.
+  destruct HX as (H1 & H2 & H3 & H4 & H5 & H6 & H7 & H8 & H9 & H10).
+  set (L := RefineDefault.refine_Lk d kl) in *.
+  set (g := fun mk => (mk, p - find_multiplicity Rops tol mk U)%nat).
+  assert (ES : Permutation (expand (map g order)) X).
+  { rewrite EX. unfold RefineDefault.refine_Xk, refine_X. fold L. unfold expand. rewrite flat_map_concat_map, map_map.
+    rewrite <- flat_map_concat_map. apply Permutation_flat_map. exact PO. }
+  pose proof Hok as (_ & _ & _ & _ & Htol & _ & _ & Hsep7).
+  assert (HXL : forall x, In x X -> In x L).
+  { intros x Hx. rewrite EX in Hx. unfold RefineDefault.refine_Xk, refine_X in Hx. fold L in Hx.
+    apply in_flat_map in Hx. destruct Hx as (mk & Hmk & Hin). apply repeat_spec in Hin. subst x. exact Hmk. }
+  assert (Hsepm : forall x y, In x X -> In y (X ++ U) -> Rabs (x - y) <= tol -> y = x).
+  { intros x y Hx Hy Habs. destruct (Req_dec x y) as [E|E]; [symmetry; exact E|]. exfalso.
+    assert (tol < Rabs (x - y)); [|lra]. apply Hsep7; [apply HXL; exact Hx| |exact E].
+    apply in_app_or in Hy. apply in_or_app. destruct Hy as [Hy|Hy]; [left; apply HXL; exact Hy|right; exact Hy]. }
+  pose proof (remove_after_refine_any_order tol tol tol2 p U P X dim (map g order) H1 H2 H3 H4 H5 H6 H7 H8 H9 H10 Hdim Htol Hsepm Ht2 ES) as H.
+  cbv zeta in H. destruct (refine_pts Rops tol p U P X) as [Q' V']. inversion Hk. subst Q' V'.
+  destruct H as [H [_ Hp]]. split.
+  - rewrite fold_left_map_ in H. exact H.
+  - intros cc t Hcc. destruct (Hp [] (map g order) eq_refl cc t Hcc) as [_ Hc]. exact Hc.
+Qed.
+
+(* [G] operations.refine_knotvector(curve, [density]) followed by operations.remove_knot of every value mk of the bisected list
+   (RefineDefault.refine_L) with the count p - mult(mk), in ANY order: the original curve object comes back *)
+Corollary remove_after_refine_curve_any_order (tol tol2 : R) check (c c' : curve (T:=R)) params (dim : nat) order :
+  RefineOp.default_ok tol (c_p c) (c_U c) (length (c_P c)) (dens params 0) ->
+  (forall i, (i < length (c_P c))%nat -> length (getp (c_P c) i) = dim) -> 0 <= tol2 ->
+  dens params 0 <> 0%nat -> refine_curve Rops tol check c params = (c', false) ->
+  Permutation order (RefineDefault.refine_L (c_p c) (c_U c) (dens params 0)) ->
+  fold_left (fun cv mk => fst (remove_knot_curve Rops tol tol2 true cv [Some mk]
+                                 [Z.of_nat (c_p c - find_multiplicity Rops tol mk (c_U c))])) order c' = c.
+Proof.
+  intros Hok Hdim Ht2 Hd HR PO. unfold refine_curve in HR.
+  destruct (andb check (negb (Nat.eqb (length params) 1))); [discriminate|].
+  destruct (Nat.eqb_spec (dens params 0) 0) as [E|_]; [contradiction|].
+  destruct (refine_plan Rops tol true (c_p c) (c_U c) None [] (dens params 0)) as [X| |] eqn:Hplan; try discriminate.
+  destruct (refine_pts Rops tol (c_p c) (c_U c) (c_P c) X) as [Q V] eqn:ER. injection HR as <-.
+  assert (HK : knot_refinement Rops tol true (c_p c) (c_U c) (c_P c) None [] (dens params 0) = Ok (Q, V)).
+  { unfold knot_refinement, knot_refinement_g. rewrite Hplan. cbn [res_map]. f_equal. exact ER. }
+  pose proof (remove_after_knot_refinement_any_order tol tol2 true (c_p c) (c_U c) (c_P c) None [] (dens params 0) dim Q V order) as H.
+  cbv zeta in H. rewrite app_nil_r in H.
+  pose proof (RefineOp.default_plan_ok tol (c_p c) (c_U c) (length (c_P c)) (dens params 0) Hok) as Hp. rewrite app_nil_r in Hp.
+  destruct (H Hp Hdim Ht2 HK PO) as [H' _]. rewrite H'. destruct c; reflexivity.
+Qed.
+
+Print Assumptions boehm_commute.
+Print Assumptions ins1_commute_lt.
+Print Assumptions remove_after_refine_any_order.
+Print Assumptions remove_after_refine_any_order_one_by_one.
+Print Assumptions refine_is_insert_chain_any_order.
+Print Assumptions remove_after_knot_refinement_any_order.
+Print Assumptions remove_after_refine_curve_any_order.
+Print Assumptions insert_knot_curve_commute.
